@@ -265,6 +265,23 @@ func c10ShareCase(n int, pcts []int) func(w *World) []Violation {
 
 // c10UnhealthyGroup: the target set a request belongs to has no healthy target; the request is not handed to the
 // other group instead (it is answered 503 by the proxy, which is C09's business; here only the side matters).
+// c10HashExtremes: "100% includes every value" also for the values the split function maps to its largest result
+// (FNV-1a 32-bit = 0xFFFFFFFF; found by a preimage search), with and without an allowlist.
+func c10HashExtremes(w *World) []Violation {
+	var vs []Violation
+	for _, allow := range [][]string{nil, {"someone-else"}} {
+		if r := w.RolloutSet("s1", 100, allow); r.Err != nil {
+			return []Violation{{"C10", "rollout-set-failed", r.Err.Error()}}
+		}
+		for _, v := range []string{"DlJaaag", "T4Lcapd", "KhgSarV", "a", "zzzzzzzzzzzzzzzzzzzzzzzzzzzzzzzz"} {
+			if side, o := c10Side(w, cookieHdr(v)); side != "rollout" {
+				vs = append(vs, Violation{"C10", "value-excluded-at-100-percent", fmt.Sprintf("cookie value %q at 100%% (allowlist %v) went to %s: %s", v, allow, side, o.Summary())})
+			}
+		}
+	}
+	return vs
+}
+
 func c10UnhealthyGroup(sick string) func(w *World) []Violation {
 	return func(w *World) []Violation {
 		var vs []Violation
@@ -328,6 +345,7 @@ func c10Cases(tier string) []ECase {
 	}
 	cases = append(cases, ECase{Name: "cookie header shapes", Class: "shapes", Run: c10ShapesCase})
 	cases = append(cases, ECase{Name: "redeploys and restart", Class: "redeploy", Run: c10RedeployCase})
+	cases = append(cases, ECase{Name: "values with the largest hash at 100%", Class: "hash-extremes", Run: c10HashExtremes})
 	for _, sick := range []string{"rollout", "active"} {
 		cases = append(cases, ECase{Name: "no healthy target in the " + sick + " group", Class: "unhealthy-group " + sick, Run: c10UnhealthyGroup(sick)})
 	}
